@@ -450,6 +450,7 @@ class Operator:
             )
         else:
             self._convergenceSummary = collections.defaultdict(list)
+            converged = False
             for coupledIteration in range(self.cs[CONF_TIGHT_COUPLING_MAX_ITERS]):
                 self.r.core.p.coupledIteration = coupledIteration + 1
                 converged = self.interactAllCoupled(coupledIteration)
